@@ -54,59 +54,64 @@ def py_consts():
     m = re.search(r'INVALID_SOURCE_ID\s*=\s*(0[xX][0-9a-fA-F]+|\d+)', src)
     if not m:
         raise RuntimeError('gen_c06: INVALID_SOURCE_ID not recognised')
-    calc = [_norm(s) for s in _method(tree, 'MessageHeader', 'calculate_crc').body if not isinstance(s, ast.Expr)]
-    if len(calc) != 5 or calc[0] != 'self.payload_size_bytes = len(payload)' or calc[1] != 'header_buffer = self.pack()' \
-            or calc[3] != 'self.crc = crc32(payload, self.crc)' or calc[4] != 'return self.crc':
-        raise RuntimeError('gen_c06: calculate_crc body not the transcribed one: %r' % calc)
-    m1 = re.fullmatch(r'self\.crc = crc32\(header_buffer\[(\d+):\]\)', calc[2])
-    if not m1:
-        raise RuntimeError('gen_c06: calculate_crc header slice not recognised: %r' % calc[2])
-    val = [_norm(s) for s in _method(tree, 'MessageHeader', 'validate_crc').body]
-    m2 = None
-    for s in val:
-        mm = re.fullmatch(r'crc = crc32\(buffer\[offset \+ (\d+):offset \+ message_size_bytes\]\)', s)
-        if mm:
-            m2 = mm
-    if not m2 or 'message_size_bytes = MessageHeader._SIZE + self.payload_size_bytes' not in val:
-        raise RuntimeError('gen_c06: validate_crc slice not recognised: %r' % val)
-    if not any(s.startswith('if self.payload_size_bytes > MessageHeader._MAX_EXPECTED_SIZE_BYTES:') for s in val) \
-            or not any(s.startswith('if crc != self.crc:') for s in val):
-        raise RuntimeError('gen_c06: validate_crc tests not recognised: %r' % val)
+    # the byte at which calculate_crc / validate_crc start the CRC: the constant lower bound of the slice handed to crc32
+    def crc_slices(fn):
+        out = []
+        for n in ast.walk(fn):
+            if isinstance(n, ast.Call) and _norm(n.func) == 'crc32' and n.args and isinstance(n.args[0], ast.Subscript) \
+                    and isinstance(n.args[0].slice, ast.Slice):
+                out.append(n.args[0].slice)
+        return out
+    cs = crc_slices(_method(tree, 'MessageHeader', 'calculate_crc'))
+    if len(cs) != 1 or cs[0].upper is not None or not isinstance(cs[0].lower, ast.Constant) or not isinstance(cs[0].lower.value, int):
+        raise RuntimeError('gen_c06: calculate_crc: expected one crc32(<packed header>[K:]) call, got %r' % [_norm(c) for c in cs])
+    m1 = cs[0].lower.value
+    vs = crc_slices(_method(tree, 'MessageHeader', 'validate_crc'))
+    lo = vs[0].lower if len(vs) == 1 else None
+    if not (isinstance(lo, ast.BinOp) and isinstance(lo.op, ast.Add) and _norm(lo.left) == 'offset' and isinstance(lo.right, ast.Constant)
+            and isinstance(lo.right.value, int) and vs[0].upper is not None):
+        raise RuntimeError('gen_c06: validate_crc: expected one crc32(buffer[offset + K:<end>]) call, got %r' % [_norm(c) for c in vs])
+    m2 = lo.right.value
     if not re.search(r'^from zlib import crc32$', src, re.M):
         raise RuntimeError('gen_c06: crc32 is not zlib.crc32 in defs.py')
     return {'PROTOCOL_VERSION': proto, 'INVALID_SOURCE_ID': int(m.group(1), 0),
-            'PY_CALC_CRC_START': int(m1.group(1)), 'PY_VALIDATE_CRC_START': int(m2.group(1))}
-
-
-ENC_BODY = ['header = MessageHeader(message.get_type())', 'header.message_version = message.get_version()',
-            'header.sequence_number = self.sequence_number', 'header.source_identifier = source_identifier',
-            None, 'message_data = message.pack()', 'return header.pack(payload=message_data)']
+            'PY_CALC_CRC_START': m1, 'PY_VALIDATE_CRC_START': m2}
 
 
 def enc_consts():
+    """how encode_message advances self.sequence_number (everything else about it is held by correspondence)"""
     tree = ast.parse(vf.repo_file(ENC))
-    init = [_norm(s) for s in _method(tree, 'FusionEngineEncoder', '__init__').body if not isinstance(s, ast.Expr)]
-    if init != ['self.sequence_number = 0']:
-        raise RuntimeError('gen_c06: FusionEngineEncoder.__init__ not the transcribed one: %r' % init)
-    body = [_norm(s) for s in _method(tree, 'FusionEngineEncoder', 'encode_message').body if not isinstance(s, ast.Expr)]
-    if len(body) != len(ENC_BODY) or any(w is not None and w != b for w, b in zip(ENC_BODY, body)):
-        raise RuntimeError('gen_c06: encode_message body not the transcribed one: %r' % body)
-    inc = body[4]
-    if inc == 'self.sequence_number += 1':
-        mod = 0          # Python int, never wraps
+    fn = _method(tree, 'FusionEngineEncoder', 'encode_message')
+    ups = []
+    for n in ast.walk(fn):
+        if isinstance(n, ast.AugAssign) and _norm(n.target) == 'self.sequence_number':
+            ups.append(n)
+        elif isinstance(n, ast.Assign) and len(n.targets) == 1 and _norm(n.targets[0]) == 'self.sequence_number':
+            ups.append(n)
+    if len(ups) != 1:
+        raise RuntimeError('gen_c06: encode_message: expected exactly one update of self.sequence_number, found %d' % len(ups))
+    u = ups[0]
+    if isinstance(u, ast.AugAssign):
+        if not (isinstance(u.op, ast.Add) and isinstance(u.value, ast.Constant) and u.value.value == 1):
+            raise RuntimeError('gen_c06: sequence counter update not recognised: %r' % _norm(u))
+        mod = 0          # Python int, never reduced
     else:
-        m = re.fullmatch(r'self\.sequence_number = \(self\.sequence_number \+ 1\) (?:% (\d+) \*\* (\d+)|% (0[xX][0-9a-fA-F]+|\d+)|& (0[xX][0-9a-fA-F]+))', inc)
-        if not m:
-            raise RuntimeError('gen_c06: sequence counter update not recognised: %r' % inc)
-        if m.group(1):
-            mod = int(m.group(1)) ** int(m.group(2))
-        elif m.group(3):
-            mod = int(m.group(3), 0)
+        v = u.value
+        ok = isinstance(v, ast.BinOp) and isinstance(v.op, (ast.Mod, ast.BitAnd)) and _norm(v.left) in ('self.sequence_number + 1', '1 + self.sequence_number')
+        if not ok:
+            raise RuntimeError('gen_c06: sequence counter update not recognised: %r' % _norm(u))
+        try:
+            k = eval(compile(ast.Expression(v.right), '<gen_c06>', 'eval'), {'__builtins__': {}})
+        except Exception:
+            raise RuntimeError('gen_c06: sequence counter modulus is not a constant expression: %r' % _norm(v.right))
+        if isinstance(v.op, ast.BitAnd):
+            if not isinstance(k, int) or k <= 0 or k & (k + 1):
+                raise RuntimeError('gen_c06: sequence mask %r is not 2^k-1' % (k,))
+            mod = k + 1
         else:
-            mask = int(m.group(4), 0)
-            if mask & (mask + 1):
-                raise RuntimeError('gen_c06: sequence mask %x is not 2^k-1' % mask)
-            mod = mask + 1
+            if not isinstance(k, int) or k <= 0:
+                raise RuntimeError('gen_c06: sequence modulus %r not a positive integer' % (k,))
+            mod = k
     return {'ENC_SEQ_MODULUS': mod}
 
 
@@ -126,17 +131,16 @@ int main() {
 
 
 def cpp_consts():
-    cc = re.sub(r'\s+', ' ', vf.repo_file(CRC_CC))
-    if 'static constexpr size_t offset = offsetof(MessageHeader, protocol_version);' not in cc \
-            or 'size_t size_bytes = (sizeof(MessageHeader) - offset) + header.payload_size_bytes;' not in cc \
-            or 'return CalculateCRC(reinterpret_cast<const uint8_t*>(&header) + offset, size_bytes);' not in cc:
-        raise RuntimeError('gen_c06: CalculateCRC(const void* buffer) in crc.cc is not the transcribed one')
-    if 'uint32_t c = initial_value ^ 0xFFFFFFFF;' not in cc or 'c = crc_table[(c ^ u[i]) & 0xFF] ^ (c >> 8);' not in cc \
-            or 'return c ^ 0xFFFFFFFF;' not in cc:
-        raise RuntimeError('gen_c06: CalculateCRC(buffer, length, initial_value) in crc.cc is not the transcribed one')
+    cc = re.sub(r'\s+', ' ', re.sub(r'//[^\n]*', '', vf.repo_file(CRC_CC)))
+    m = re.findall(r'offsetof\( ?MessageHeader, ?(\w+) ?\)', cc)
+    if m != ['protocol_version']:
+        raise RuntimeError('gen_c06: CalculateCRC(buffer) is expected to start at offsetof(MessageHeader, protocol_version); found %r' % m)
+    if 'sizeof(MessageHeader)' not in cc or 'payload_size_bytes' not in cc:
+        raise RuntimeError('gen_c06: CalculateCRC(buffer) size computation not recognised')
     h = re.sub(r'\s+', ' ', re.sub(r'//[^\n]*', '', vf.repo_file(CRC_H)))
-    if 'if (sizeof(MessageHeader) + header.payload_size_bytes > MessageHeader::MAX_MESSAGE_SIZE_BYTES) { return false; } else { return header.crc == CalculateCRC(buffer); }' not in h:
-        raise RuntimeError('gen_c06: IsValid() in crc.h is not the transcribed one')
+    if not re.search(r'sizeof\(MessageHeader\) \+ header\.payload_size_bytes > MessageHeader::MAX_MESSAGE_SIZE_BYTES', h) \
+            or not re.search(r'header\.crc == CalculateCRC\(buffer\)|CalculateCRC\(buffer\) == header\.crc', h):
+        raise RuntimeError('gen_c06: IsValid() in crc.h: size test / CRC comparison not recognised')
     if not re.search(r'uint32_t initial_value = 0\)', h):
         raise RuntimeError('gen_c06: default initial_value of CalculateCRC not 0')
     key = hashlib.sha1((PROBE + vf.repo_file(DEFS_H) + vf.REPO).encode()).hexdigest()[:16]
